@@ -49,3 +49,35 @@ Proof.
   - rewrite rev_involutive, app_nil_r. exact H.
   - destruct (rev tr); lia.
 Qed.
+
+(* ---- C16: the per-policy pairing checker accepts every model log ---- *)
+From FS Require Import Proofs.ExecRetryEvents.
+
+Definition scan (pos : nat) (s : option bool) (l : list event) : option bool := fold_left (fun s e => stp pos e s) l s.
+
+Lemma scan_none pos l : scan pos None l = None.
+Proof. induction l as [|e l IH]; [reflexivity|]. cbn [scan fold_left stp]. exact IH. Qed.
+
+Lemma st_scan pos tr : st pos tr = scan pos (Some false) (rev tr).
+Proof.
+  induction tr as [|e tr IH]; [reflexivity|]. cbn [st rev]. unfold scan. rewrite fold_left_app. cbn [fold_left].
+  fold (scan pos (Some false) (rev tr)). rewrite <- IH. reflexivity.
+Qed.
+
+Lemma kind_is_sched e : kind_is KRetryScheduled e = match e_kind e with KRetryScheduled => true | _ => false end.
+Proof. unfold kind_is. destruct (e_kind e); reflexivity. Qed.
+Lemma kind_is_retry' e : kind_is KRetry e = match e_kind e with KRetry => true | _ => false end.
+Proof. unfold kind_is. destruct (e_kind e); reflexivity. Qed.
+
+Lemma retry_pairs_scan pos l : forall b, retry_pairs_ok pos b l = true <-> scan pos (Some b) l <> None.
+Proof.
+  induction l as [|e l IH]; intros b; cbn [retry_pairs_ok scan fold_left]; [split; [discriminate|reflexivity]|].
+  fold (scan pos (stp pos e (Some b)) l). rewrite kind_is_sched, kind_is_retry'. unfold stp.
+  destruct (Nat.eqb (e_pos e) pos); cbn [andb]; [|apply IH].
+  destruct (e_kind e); try apply IH.
+  destruct b; cbn [andb]; [apply IH|]. rewrite scan_none. split; [discriminate|intros H; contradiction].
+Qed.
+
+Theorem c16_pairing_checker_accepts_model fuel stack now ext key b l k c script pos :
+  retry_pairs_ok pos false (rev (w_trace (drain (snd (execute fuel stack (fresh_world now ext key b l k c script)))))) = true.
+Proof. apply retry_pairs_scan. rewrite <- st_scan. apply retry_events_pair_up. Qed.
